@@ -132,6 +132,18 @@ func runCase(res *mon.Result, c hcase, dir string) {
 	}
 	var model [][]byte
 	var seq uint32
+	// delivered slices are kept (as a consumer that forwards them would) and
+	// compared again at the end: a delivered message must never change afterwards
+	type kept struct{ got, want []byte }
+	var delivered []kept
+	defer func() {
+		for i, k := range delivered {
+			if !bytes.Equal(k.got, k.want) {
+				viol("delivered-message-altered", "the %d-th delivered message (%d bytes) changed after it was handed to the consumer: now %.16x, was %.16x", i, len(k.want), k.got, k.want)
+				return
+			}
+		}
+	}()
 	crossed, reopenNonEmpty := false, false
 	bytesInSeg := int64(0)
 	check := func(step int, what string) bool {
@@ -172,6 +184,7 @@ func runCase(res *mon.Result, c hcase, dir string) {
 			viol("wrong-message", "step %d: delivered %d bytes %.16x, expected head of %d bytes %.16x (delivered message is model position %d)", step, len(m), m, len(model[0]), model[0], pos)
 			return false
 		}
+		delivered = append(delivered, kept{m, model[0]})
 		model = model[1:]
 		return true
 	}
